@@ -23,6 +23,10 @@ class QuicPacketSpace:
         self.expected_packet_number = 0
         self.largest_received_packet = -1
         self.largest_received_time: Optional[float] = None
+        # Packet numbers which were already processed, to discard duplicates.
+        # Numbers below `received_packets_floor` are assumed to be duplicates.
+        self.received_packets = RangeSet()
+        self.received_packets_floor = 0
 
         # sent packets and loss
         self.ack_eliciting_in_flight = 0
